@@ -9,7 +9,7 @@ META = {
         "technique": "property-based testing (rapid), stateful model-based oracle",
     },
     "C16": {
-        "text": "The real ChannelMapping is explored with random offer sequences for all count pairs 0..6 and exhaustively for counts 1..3 with sequences up to length 5/6, checking function/stability/quota/totality on public queries only. The exhaustive part is complete for its bound; larger counts are sampled.",
+        "text": "The real ChannelMapping is explored with random offer sequences for all count pairs 0..6 and exhaustively for counts 1..3 with sequences up to length 5/6, checking function/stability/quota/totality on public queries only. The exhaustive part is complete for its bound; larger counts are sampled. Layer 2 (TestC16_Manager): the real channel manager over contended catalogs with equal channel counts; the assignment is read off the tick-only packs and must be stable and one-to-one. It found the known finding F-C16-stale-forward.",
         "design_ref": "DESIGN.md section 4 C16",
         "note": "Layer 1 covers the quota check in ChannelMapping through the manager's direct-assignment protocol restated in the harness; the manager's wait/forward path is covered by the reader harness where registered.",
         "technique": "property-based testing (rapid) + bounded exhaustive enumeration, invariant oracle",
@@ -39,25 +39,25 @@ META = {
         "technique": "property-based testing (rapid), differential against reference mapping",
     },
     "C20": {
-        "text": "Every generated op message / API event is pushed through the real writer and the single resulting downstream request is deep-compared with a copy of the source (identity fields, list filtering, schema, shard number, consistency, properties, replication stamp); malformed packs must be rejected with zero downstream calls.",
+        "text": "Every generated op message / API event is pushed through the real writer and the single resulting downstream request is deep-compared with a copy of the source (identity fields, list filtering, schema, shard number, consistency, properties, replication stamp); malformed packs must be rejected with zero downstream calls. Load/release partition lists may name a partition that is neither dropped nor present downstream yet: not ready, no request, never a truncated list.",
         "design_ref": "DESIGN.md section 4 C20",
         "note": "Names are excluded here (C09). Kafka downstream not exercised.",
         "technique": "property-based testing (rapid), field-by-field differential with the source message",
     },
     "C01": {
-        "text": "Generated catalogs, pack scripts and registration/arrival interleavings are run through the real replicateChannelManager between a fake dispatcher and its public output channels; after goroutine-level quiescence a two-sided oracle compares everything fed with everything emitted (tags make every row attributable). Found the nil-position defect (fixed) and the forward/tick overtake (known finding).",
+        "text": "Generated catalogs, pack scripts and registration/arrival interleavings are run through the real replicateChannelManager between a fake dispatcher and its public output channels; after goroutine-level quiescence a two-sided oracle compares everything fed with everything emitted (tags make every row attributable). Found the nil-position defect (fixed) and the forward/tick overtake (known finding). TestC01_Repeat adds repeated notifications of a collection (a second start lined up with the first inside the downstream lookup, or again between two packs): both succeed, no source shard is subscribed twice, same oracle.",
         "design_ref": "DESIGN.md section 4 C01",
         "note": "Schedules: only registration-vs-arrival order and the natural concurrency of handler goroutines are explored; Go scheduler interleavings are sampled. Fake dispatcher delivers packs shaped like the real one (nil / pchannel positions, BeginTs=0).",
         "technique": "property-based testing (rapid), stateful generation, two-sided multiset/sequence oracle",
     },
     "C02": {
-        "text": "Same runs as C01 with an addressing/routing oracle on every emitted message: ids, shard bijection, output channel, position channel names and message ids, for aligned and skewed placements.",
+        "text": "Same runs as C01 with an addressing/routing oracle on every emitted message: ids, shard bijection, output channel, position channel names and message ids, for aligned and skewed placements. TestC02_SameName repeats it over catalogs whose collections all carry one name (one per database) with frequent late partition ids.",
         "design_ref": "DESIGN.md section 4 C02",
         "note": "Downstream described by a fake api.TargetAPI; the pairing the code chooses is only required to be a bijection.",
         "technique": "property-based testing (rapid), validity-predicate oracle over emitted messages",
     },
     "C03": {
-        "text": "The harness owns the schedule of the window the statement names: build-tag-guarded yield points park stream goroutines between computing and enqueueing a pack and a generated schedule orders the releases, with arbitrary clock skew between the multiplexed streams. Found two defects (enqueue outside the channel lock; tick-only pack closed with its source end time), both fixed.",
+        "text": "The harness owns the schedule of the window the statement names: build-tag-guarded yield points park stream goroutines between computing and enqueueing a pack and a generated schedule orders the releases, with arbitrary clock skew between the multiplexed streams. Found two defects (enqueue outside the channel lock; tick-only pack closed with its source end time), both fixed. TestC03_Resume covers the resume clause: checkpoints are taken as the server persists them, the manager is closed (pause of the target / process restart) and a new one resumes a drawn subset of the streams in a drawn order; time must not go back across the resume. It found the known finding F-C03-resume-order.",
         "design_ref": "DESIGN.md section 4 C03",
         "note": "Only the compute/enqueue window and feed order are controlled; other preemption points are sampled. With the fix in place the lock makes reordered releases impossible, so the schedule now exercises contention (a feed while another pack sits in the window).",
         "technique": "property-based testing (rapid) with harness-controlled schedule (yield hooks), invariant oracle over the output sequence",
@@ -87,37 +87,37 @@ META = {
         "technique": "property-based testing (rapid), differential against reference function",
     },
     "C10": {
-        "text": "Stateful property-based exploration of create / failing create / delete / restart histories through the real HTTP handler and MetaCDC with a real etcd meta store: exclusivity per target on both selection paths, selection bounds at acceptance and constancy afterwards, side-effect freedom of rejects, and equality of the duplicate bookkeeping with a reference computed from the persisted tasks after every step. Found five defects (user-role flag out of step, partially overlapping wildcards accepted, shared exclusion removed with one task, bookkeeping reverted twice after a failed start), all fixed.",
+        "text": "Stateful property-based exploration of create / failing create / delete / restart histories through the real HTTP handler and MetaCDC with a real etcd meta store: exclusivity per target on both selection paths, selection bounds at acceptance and constancy afterwards, side-effect freedom of rejects, and equality of the duplicate bookkeeping with a reference computed from the persisted tasks after every step. Found five defects (user-role flag out of step, partially overlapping wildcards accepted, shared exclusion removed with one task, bookkeeping reverted twice after a failed start), all fixed. Concurrent create requests for one target are part of the histories (invariants on whatever was accepted).",
         "design_ref": "DESIGN.md section 4 C10",
         "note": "Selection is evaluated through the exported selection functions over a 4x3 name universe (the functions the readers and the DDL path call), not by observing replicated traffic; traffic-level exclusivity is exercised in the C05/C06 simulator runs. Store failures are single transient faults.",
         "technique": "property-based testing (rapid), stateful model-based oracle + reference bookkeeping, fault injection",
     },
     "C19": {
-        "text": "Generated requests (grammar of valid parts + labelled planted invalidities + adversarial values + wrong types + raw non-UTF-8 bytes) and coverage-guided byte fuzzing against the real HTTP handler with an invariant oracle: well-formed single JSON answer with an allowed code, planted invalidity => rejected, and state triple (task list, full store dump, duplicate bookkeeping) unchanged by every non-200 answer. Found four defects (dotted names crash the handler, checkpoints of a rejected request stay in the store, non-UTF-8 request type and non-UTF-8 task id panic in the metrics), all fixed.",
+        "text": "Generated requests (grammar of valid parts + labelled planted invalidities + adversarial values + wrong types + raw non-UTF-8 bytes) and coverage-guided byte fuzzing against the real HTTP handler with an invariant oracle: well-formed single JSON answer with an allowed code, planted invalidity => rejected, and state triple (task list, full store dump, duplicate bookkeeping) unchanged by every non-200 answer. Found four defects (dotted names crash the handler, checkpoints of a rejected request stay in the store, non-UTF-8 request type and non-UTF-8 task id panic in the metrics), all fixed. The grammar includes an rpc position without channel name.",
         "design_ref": "DESIGN.md section 4 C19",
         "note": "The handler is driven in-process through httptest (no TCP). Native fuzzing is in the thorough tier only (cannot be seeded); its findings are kept as raw bodies under replays/C19 and re-run by the quick tier.",
         "technique": "property-based testing (rapid) + native coverage-guided fuzzing (go test -fuzz), invariant + metamorphic (state unchanged) oracle",
     },
     "C18": {
-        "text": "Canary-based information-flow testing: every secret of a generated create request is a unique marker, the service runs at debug level with its complete log output captured at file-descriptor level, and every response and log increment of generated API / failure / restart histories is searched for the markers. Found the four leaking log sites (failed create prints the request, failed connection check prints the connect parameters, failed start during reload prints the task record, request log does not mask Kafka SASL credentials), fixed in one commit.",
+        "text": "Canary-based information-flow testing: every secret of a generated create request is a unique marker, the service runs at debug level with its complete log output captured at file-descriptor level, and every response and log increment of generated API / failure / restart histories is searched for the markers. Found the four leaking log sites (failed create prints the request, failed connection check prints the connect parameters, failed start during reload prints the task record, request log does not mask Kafka SASL credentials), fixed in one commit. Requests may also carry credentials in the connect param of the other downstream kind.",
         "design_ref": "DESIGN.md section 4 C18",
         "note": "In-process (not a child process): the capture re-points fd 1/2, so output of linked C libraries (librdkafka) is included. Kafka targets are limited to one per case because their producers are never closed by the code under test.",
         "technique": "property-based testing (rapid), stateful generation with fault injection, invariant oracle (canary never observable)",
     },
     "C11": {
-        "text": "Model-based stateful testing of the task lifecycle through the real API with live replication underneath: an explicit state machine is the model, four views of the state are compared with it after every generated step (with store faults and restarts), and the cleanup obligations are checked on observable resources (reference counts, reader registrations, dispatcher registrations, traffic reaching the downstream, goroutine states). Found nine defects, all fixed: checkpoint re-created after delete, stop of one collection closes the other streams of the handler, collections added to an existing handler are never stopped, one stopped/failing task ends the shared loops of its target, pause with failing store stops the task although everything says Running, failed start leaks readers and entity, closed entity steals the channel notification of its successor, ...",
+        "text": "Model-based stateful testing of the task lifecycle through the real API with live replication underneath: an explicit state machine is the model, four views of the state are compared with it after every generated step (with store faults and restarts), and the cleanup obligations are checked on observable resources (reference counts, reader registrations, dispatcher registrations, traffic reaching the downstream, goroutine states). Found nine defects, all fixed: checkpoint re-created after delete, stop of one collection closes the other streams of the handler, collections added to an existing handler are never stopped, one stopped/failing task ends the shared loops of its target, pause with failing store stops the task although everything says Running, failed start leaks readers and entity, closed entity steals the channel notification of its successor, ... Internal Running->Paused transitions are part of the histories: the replication of a running task fails (rejected writes, unknown partition), optionally with a pause request overtaking the failure report.",
         "design_ref": "DESIGN.md section 4 C11",
         "note": "In-process simulator, restart = new incarnation in the same process (fenced predecessor). Liveness of running tasks is judged by quiescence, never by a timeout alone.",
         "technique": "property-based testing (rapid), stateful model-based oracle (explicit state machine), fault injection, resource-level invariants",
     },
     "C06": {
-        "text": "Fault-injection scenarios over the full in-process service with two tasks: generated fault class, position, persistence, batching and task placement; an end-state oracle on task states, reasons, downstream traffic, checkpoints and on what arrives after resume. Found four defects, all fixed: error events without task id pause another task in the store while the failing one runs on and skips the failing messages; a failure of one task ends the shared loops / batch of its target; the resume time filter uses the shifted target time and drops unacknowledged source messages.",
+        "text": "Fault-injection scenarios over the full in-process service with two tasks: generated fault class, position, persistence, batching and task placement; an end-state oracle on task states, reasons, downstream traffic, checkpoints and on what arrives after resume. Found four defects, all fixed: error events without task id pause another task in the store while the failing one runs on and skips the failing messages; a failure of one task ends the shared loops / batch of its target; the resume time filter uses the shifted target time and drops unacknowledged source messages. A fifth class rejects a DDL: a collection selected by the task is created upstream while it runs and the downstream rejects its CreateCollection; a panic of the service is read from the fd-level capture file. This class found the stale failure mark of a stream (fix 53f00a7).",
         "design_ref": "DESIGN.md section 4 C06",
         "note": "In-process; a panic of the service kills the test binary and is reported by the driver as a violation (no recover in harness goroutines).",
         "technique": "property-based testing (rapid), fault injection at generated positions, end-state oracle judged at quiescence",
     },
     "C05": {
-        "text": "Generated scripts of traffic, write/checkpoint faults, pauses and crash points (before the write, between acknowledgement and checkpoint, after the checkpoint) against the full in-process service, with a monitor evaluated at every checkpoint write (never ahead of what the downstream accepted) and an end-state oracle (every row arrives at least once after resume / restart). Found the resume time filter defect (fixed, see C06) and the dead shared loops (fixed, see C11).",
+        "text": "Generated scripts of traffic, write/checkpoint faults, pauses and crash points (before the write, between acknowledgement and checkpoint, after the checkpoint) against the full in-process service, with a monitor evaluated at every checkpoint write (never ahead of what the downstream accepted) and an end-state oracle (every row arrives at least once after resume / restart). Found the resume time filter defect (fixed, see C06) and the dead shared loops (fixed, see C11). The never-ahead monitor also found the known finding F-C05-resume-without-checkpoint (a channel without persisted checkpoint is reopened at the latest position).",
         "design_ref": "DESIGN.md section 4 C05",
         "note": "Crash is simulated inside the test process by fencing the incarnation's store and source streams at the chosen point; a child-process SUT was designed but not built. End-state verdicts are only taken at quiescence.",
         "technique": "property-based testing (rapid), generated fault/crash scripts, history invariant (monitor at every checkpoint write) + end-state oracle",
